@@ -501,7 +501,7 @@ def c08(d):
               "quantized_tanh": lambda: C(bits, st),
               "quantized_sigmoid": lambda: C(bits, False, False, st),
               "quantized_po2": lambda: C(bits, None, st),
-              "quantized_relu_po2": lambda: C(bits, None, 0, st),
+              "quantized_relu_po2": lambda: C(bits, None, rep.get("negative_slope", 0) or 0, st),
               "binary": lambda: C(False, 2.0, st),
               "stochastic_binary": lambda: (C(2.0) if st else quantizers.binary(False, 2.0)),
               "stochastic_ternary": lambda: (C(2.0, 0.5) if st else quantizers.ternary(2.0, 0.5))}[cls]()
@@ -795,6 +795,15 @@ def c07_collect(d):
     sch._model = model
   sch.on_train_begin()
   not_reset = [i for i, q in enumerate(qs) if q.updates != [0.0]]
+  if d.get("clause") == "second_train_begin_keeps_factors":
+    # a first run that reached factor 1, then a second fit() with the same callback object
+    for q in qs:
+      q.update_qnoise_factor(1.0)
+    sch.on_train_begin()
+    dropped = [i for i, q in enumerate(qs) if float(q.qnoise_factor) != 1.0]
+    return {"status": "confirmed" if dropped else "refuted",
+            "observed": {"factor_after_second_on_train_begin": [float(q.qnoise_factor) for q in qs]},
+            "expected": "a later on_train_begin leaves the factors where the schedule put them (never decreasing)"}
   bad = bool(missing or not_reset or len(got) != 4)
   return {"status": "confirmed" if bad else "refuted",
           "observed": {"factors": [1.0, 0.0, f, 0.25], "not_collected": missing, "not_reset_by_on_train_begin": not_reset,
